@@ -39,9 +39,10 @@ rows = []
 for d in sorted(glob.glob(os.path.join(ROOT, "seeded", "*"))):
     m = json.load(open(os.path.join(d, "meta.json")))
     rows.append((m["id"], m["property"], m.get("summary", "see notes.md")))
-table("(b) seeded changes from sub-agents, wave 1", [r for r in rows if "-w2" not in r[0] and not r[0].startswith("W3")])
+table("(b) seeded changes from sub-agents, wave 1", [r for r in rows if "-w2" not in r[0] and not r[0].startswith("W")])
 table("(c) seeded changes from sub-agents, wave 2", [r for r in rows if "-w2" in r[0]])
 table("(d) seeded changes from sub-agents, wave 3 (organised by source file; each agent saw all 19 property texts)", [r for r in rows if r[0].startswith("W3")])
+table("(e) seeded changes from sub-agents, wave 4 (organised by theme; agents saw the list of all earlier mutations)", [r for r in rows if r[0].startswith("W4")])
 print(open(os.path.join(ROOT, "calibration", "strengthened.md")).read())
 print(open(os.path.join(ROOT, "calibration", "refactorings.md")).read())
 print("""Detection power is statistical outside the enumerated sub-spaces: a change that needs, say, a dimension of exactly 17 *and*
